@@ -32,7 +32,7 @@ pub fn info() -> PropInfo {
         id: "C15",
         run,
         replay,
-        rule: "cases = (family value, quote level, expand-empty, list of rewrites). The value is serialized (no indentation, so every text token is payload), the document is rewritten by the composition of the listed rewrites, each applied at a chosen applicable site: comment/PI between any two tokens or inside text (never inside a reference), whitespace between children of element-only struct content, text replaced wholly/partly by CDATA or (non-blank characters) by decimal/hex character references, <x/> <-> <x></x>, attribute order / quote kind (re-escaping the quote) / spacing, XML declaration + trailing comment, unknown attributes on struct elements and unknown child elements at the start or end of element-only struct content (per-type metadata says where). Oracle: from_str::<T>(rewritten) == from_str::<T>(original), both Ok. Small documents: every rewrite kind at EVERY applicable site; otherwise 1-6 random rewrites. Non-trivial = at least one rewrite was applicable and changed the document.",
+        rule: "cases = (family value, quote level, expand-empty, list of rewrites). The value is serialized (no indentation, so every text token is payload), the document is rewritten by the composition of the listed rewrites, each applied at a chosen applicable site: comment/PI between any two tokens or inside text (never inside a reference), whitespace between children of element-only struct content, text replaced wholly/partly by CDATA or (non-blank characters) by decimal/hex character references, <x/> <-> <x></x>, attribute order / quote kind (re-escaping the quote) / spacing, XML declaration + trailing comment, unknown attributes on struct elements and unknown child elements at the start or end of element-only struct content (per-type metadata says where). Oracle: from_str::<T>(rewritten) == from_str::<T>(original), both Ok. Small documents: every rewrite kind at EVERY applicable site; otherwise 1-6 random rewrites. A further stage uses hand-templated documents with prefix:nil attributes on optional fields (the serializer never writes xsi:nil) and adds unknown children that declare/rebind/unbind namespace prefixes for their own subtree. Non-trivial = at least one rewrite was applicable and changed the document.",
         assumptions: &[
             "blank characters are never turned into references and references are never split (both change the information under the documented list/trim rules)",
             "whitespace-only text tokens are never turned into CDATA/references (inserted whitespace is insignificant only as plain text)",
@@ -486,14 +486,97 @@ pub fn check(c: &Case) -> Verdict {
     }
 }
 
+/// Documents that use `xsi:nil` (the serializer never writes it, so the family documents do not
+/// contain it): optional fields carrying prefix:nil attributes under a root that declares the
+/// prefixes; the rewrite adds unknown child elements — which may declare, rebind or unbind
+/// namespace prefixes for THEIR OWN subtree — at the start and/or end of the root's element-only
+/// content. Targets are Option-bearing structs that ignore unknown fields.
+#[derive(Deserialize, Debug)]
+#[allow(dead_code)]
+struct NilLeaf {
+    #[serde(rename = "@k", default)]
+    k: Option<String>,
+    #[serde(rename = "$text", default)]
+    t: Option<String>,
+    #[serde(default)]
+    v: Option<String>,
+}
+#[derive(Deserialize, Debug)]
+#[allow(dead_code)]
+struct NilHolder {
+    a: Option<String>,
+    b: Option<String>,
+    c: Option<NilLeaf>,
+    d: Option<NilLeaf>,
+}
+
+fn nil_de(target: u8, xml: &str, via_reader: bool) -> Result<String, String> {
+    match (target % 2, via_reader) {
+        (0, false) => quick_xml::de::from_str::<NilHolder>(xml).map(|v| format!("{:?}", v)).map_err(|e| e.to_string()),
+        (0, true) => quick_xml::de::from_reader::<_, NilHolder>(std::io::BufReader::with_capacity(5, xml.as_bytes())).map(|v| format!("{:?}", v)).map_err(|e| e.to_string()),
+        (_, false) => quick_xml::de::from_str::<super::c07::NestedOpts>(xml).map(|v| format!("{:?}", v)).map_err(|e| e.to_string()),
+        (_, true) => quick_xml::de::from_reader::<_, super::c07::NestedOpts>(std::io::BufReader::with_capacity(5, xml.as_bytes())).map(|v| format!("{:?}", v)).map_err(|e| e.to_string()),
+    }
+}
+
+#[derive(Clone, Debug, Serialize, Deserialize, PartialEq)]
+pub struct NilCase {
+    /// 0 = a struct of four optional fields, 1 = c07's NestedOpts
+    pub target: u8,
+    pub via_reader: bool,
+    /// optional fields: (name, nil attribute, content) selectors
+    pub fields: Vec<(u16, u16, u16)>,
+    pub rootsel: u16,
+    /// unknown children: (at end?, declaration, inner content) selectors
+    pub unknown: Vec<(bool, u16, u16)>,
+}
+
+pub fn check_nil(c: &NilCase) -> Verdict {
+    let items: Vec<(u8, u16, u16, u16)> = c.fields.iter().map(|(a, b, d)| (1u8, *a, *b, *d)).collect();
+    let base = super::c14::nil_template(&items, c.rootsel);
+    let mut front: Vec<(u8, u16, u16, u16)> = vec![];
+    let mut back: Vec<(u8, u16, u16, u16)> = vec![];
+    for (at_end, decl, inner) in &c.unknown {
+        if *at_end {
+            back.push((0, *decl, *inner, 0));
+        } else {
+            front.push((0, *decl, *inner, 0));
+        }
+    }
+    let mut all = front;
+    all.extend(items.iter().cloned());
+    all.extend(back);
+    let rewritten = super::c14::nil_template(&all, c.rootsel);
+    let a = nil_de(c.target, &base, c.via_reader);
+    let b = nil_de(c.target, &rewritten, c.via_reader);
+    match (&a, &b) {
+        (Err(_), _) => Verdict::pass(false).class("nil-base-document-is-an-error"),
+        (Ok(x), Ok(y)) if x == y => Verdict::pass(rewritten != base).class("nil-documents-unknown-child"),
+        _ => Verdict::fail(format!("unknown child elements (with namespace declarations of their own) changed the value for target {}: original {:?} -> {:?}; rewritten {:?} -> {:?}", c.target, base, a, rewritten, b)),
+    }
+}
+
 pub fn rw_strategy() -> impl Strategy<Value = Rw> {
     (0u8..12, any::<u16>(), any::<u16>()).prop_map(|(kind, site, arg)| Rw { kind, site, arg })
 }
 
 fn run(ctx: &Ctx) {
     ctx.run_regress::<Case, _>(check);
+    ctx.run_regress::<NilCase, _>(check_nil);
     let strat = || Box::new((any_val(), 0u8..3, any::<bool>(), prop::collection::vec(rw_strategy(), 1..7)).prop_map(|(value, level, expand_empty, rewrites)| Case { value, level, expand_empty, rewrites }));
     ctx.run_proptest_with("values-x-random-rewrites", ctx.tier.pick(1_500_000, 12_000_000), strat, check);
+    let nil = || {
+        Box::new(
+            (
+                (0u8..2, any::<bool>()),
+                prop::collection::vec((any::<u16>(), any::<u16>(), any::<u16>()), 1..4),
+                any::<u16>(),
+                prop::collection::vec((any::<bool>(), any::<u16>(), any::<u16>()), 1..3),
+            )
+                .prop_map(|((target, via_reader), fields, rootsel, unknown)| NilCase { target, via_reader, fields, rootsel, unknown }),
+        )
+    };
+    ctx.run_proptest_with("nil-documents-x-unknown-children", ctx.tier.pick(400_000, 4_000_000), nil, check_nil);
     // small documents: each rewrite kind at every applicable site
     let per_type = ctx.tier.pick(60usize, 1200);
     let mut vals: Vec<Val> = vec![];
@@ -529,7 +612,11 @@ fn run(ctx: &Ctx) {
     );
 }
 
-fn replay(_stage: &str, case: &Value) -> Result<Verdict, String> {
+fn replay(stage: &str, case: &Value) -> Result<Verdict, String> {
+    if stage == "nil-documents-x-unknown-children" || case.get("unknown").is_some() {
+        let c: NilCase = serde_json::from_value(case.clone()).map_err(|e| e.to_string())?;
+        return Ok(check_nil(&c));
+    }
     let c: Case = serde_json::from_value(case.clone()).map_err(|e| e.to_string())?;
     Ok(check(&c))
 }
